@@ -108,6 +108,14 @@ def run(chk):
     confirmed = set()
     for fl in fails:
         c, r = by_id[fl["id"]], runs[fl["id"]]
+        if fl["class"] == "harness-could-not-build-context":
+            # the roots of a case are instantiations that type-checked when the operations were dumped (on this very
+            # build of the library), so a context made of them that the builder now rejects -- after the batch of
+            # rejected custom_op calls the harness makes first -- is a valid context that cannot be instantiated
+            names = sorted({ops[insts[x - 1]["op"] - 1]["family"] for x in c["roots"]})
+            chk.violation({"class": "valid-custom-operation-rejected-after-history", "families": names[:3]},
+                          {"case": c, "error": fl.get("info"), "history": "48 rejected custom_op calls on the same thread, then this context"})
+            continue
         if fl["class"].startswith("harness"):
             raise lib.ToolError("harness problem in case %s: %s %s" % (fl["id"], fl["class"], fl.get("info")))
         opnames = [ops[insts[x - 1]["op"] - 1] for x in c["roots"]]
